@@ -75,7 +75,8 @@ type TupleV []Val
 // rangeIter is the state of a `range` over a map or string
 type rangeIter struct {
 	m      *MapObj
-	remain []int // indices of entries not yet visited
+	remain []int // indices (into snap) of entries not yet visited
+	snap   []mapEntry
 	str    string
 	pos    int
 	isStr  bool
